@@ -318,6 +318,14 @@ func mapReduceWithPanicChan[T, U, V any](source <-chan T, panicChan *onceChan, m
 		drain(output)
 		panic(v)
 	case v, ok := <-output:
+		// select picks at random among the ready cases, a user panic takes precedence over the result
+		select {
+		case pv := <-panicChan.channel:
+			drain(output)
+			panic(pv)
+		default:
+		}
+
 		if e := retErr.Load(); e != nil {
 			err = e
 		} else if ok {
